@@ -136,7 +136,7 @@ def run_case(a):
 def run(tier):
     v = Verdict("C13", "exploration", tier)
     cli = common.build_cli()
-    n = 60 if tier == "quick" else 600
+    n = 60 if tier == "quick" else 2000
     nseeds = 12 if tier == "quick" else 48
     ntrans = 4 if tier == "quick" else 8
     base = common.seed() * 13000019
